@@ -18,15 +18,15 @@ SampleVerdict(e, mem) ==
      ELSE IF mem # <<>> /\ mem # e.pts THEN "C13.same-seed-same-samples"
      ELSE "ok"
 
-(* samples with a requested total: in the cone of the cloud and on the plane sum = l1 *)
+(* samples with a requested total: in the gamut (inside every exact facet of the full corner cloud G, which contains *)
+(* the dark point) and on the plane sum = l1 (l1S = requested total in fixed point)                                  *)
 L1Verdict(e, mem) ==
-  LET P == ToSet(e.P)
-      V == Transpose(SortedVecs(P))
-      CF == ConeFacets(V)
-      d == Len(e.P[1])
+  LET F == HullFacets(ToSet(e.G))
+      d == Len(e.G[1])
+      inside(x) == \A f \in F : Dot(f.nu, x) <= f.h * e.S + e.tol * SumTo([i \in 1..d |-> Abs(f.nu[i])], d)
   IN IF e.count # e.n THEN "C13.count"
-     ELSE IF \E k \in 1..Len(e.pts) : Abs(Sum(e.pts[k]) - e.l1 * e.S) > e.tol * d THEN "C13.l1-total"
-     ELSE IF \E k \in 1..Len(e.pts) : \E nu \in CF : Dot(nu, e.pts[k]) < -e.tol * SumTo([i \in 1..d |-> Abs(nu[i])], d) THEN "C13.in-gamut"
+     ELSE IF \E k \in 1..Len(e.pts) : Abs(Sum(e.pts[k]) - e.l1S) > e.tol * d THEN "C13.l1-total"
+     ELSE IF \E k \in 1..Len(e.pts) : ~inside(e.pts[k]) THEN "C13.in-gamut"
      ELSE IF mem # <<>> /\ mem # e.pts THEN "C13.same-seed-same-samples"
      ELSE "ok"
 
